@@ -201,7 +201,9 @@ def run_case(case, seed, c, st):
                 npairs_R += 1
                 e = np.abs(s1 - s0).max() / scale
                 worst = max(worst, e)
-                if e > TOL:
+                # a structure typed with 7 decimals has its symmetry only to ~1e-7 in the coordinates, the spring model follows the
+                # typed positions: the spectrum is then invariant to ~1e-6, not to rounding (a missed boundary image gives 1e-2)
+                if e > (1e-5 if case["variant"] == "typed7" else TOL):
                     return fail("point-group", "spectrum changes by %.3g (rel) under q -> Rq, R=%s, q=%s" % (e, np.asarray(R).tolist(), q.tolist()), e)
         # 5 sum rule
         s0 = _spec(D_at[0])
